@@ -19,7 +19,7 @@ from props import lib_exec as X
 from props import lib_server as L
 
 GENERATORS = ["server", "exec", "store", "pdu", "framer_tcpascii", "framer_rtubin", "exec_other"]
-PROP_FILES = ["C09_e2e", "C09_e2e_ascii", "C09_e2e_rtu", "C09_e2e_ext"]
+PROP_FILES = ["C09_e2e", "C09_e2e_ascii", "C09_e2e_rtu", "C09_e2e_ext", "C09_e2e_rtu_ext"]
 CASE_DEPS = ["theories/CorrE2E.vo", "theories/CorrE2ESerial.vo", "theories/CorrE2EExt.vo"]
 TRUSTED = [
     "end-to-end composition (Props/C09_e2e.v): hand-written glue in theories/EndToEnd.v — request object -> execute "
@@ -433,7 +433,7 @@ def serial_suites(tier):
     out = []
     for framing in SERIAL_FRAMINGS:
         r = common.rng("C09.e2e_serial_" + framing)
-        n = 250 * (1 if tier == "quick" else 6)
+        n = 200 * (1 if tier == "quick" else 6)
         cases = []
         for _ in range(n):
             sc = gen_serial_scenario(r, framing)
@@ -519,7 +519,7 @@ def ext_suites(tier):
     for kind, fe in EXT_COMBOS:
         name = "e2e_ext_%s_%s" % (kind, fe)
         r = common.rng("C09." + name)
-        n = 120 * (1 if tier == "quick" else 6)
+        n = 100 * (1 if tier == "quick" else 6)
         cases = []
         for _ in range(n):
             c, escaped = ext_case_of(gen_ext_scenario(r, kind, fe))
@@ -560,7 +560,7 @@ def suites(tier):
     _BROKEN[:] = []
     for fe in FES:
         r = common.rng("C09.e2e_" + fe)
-        n = {"sync_tcp": 400, "aio_tcp": 150, "tw_tcp": 150}[fe] * (1 if tier == "quick" else 6)
+        n = {"sync_tcp": 300, "aio_tcp": 120, "tw_tcp": 120}[fe] * (1 if tier == "quick" else 6)
         cases = []
         for _ in range(n):
             sc = gen_scenario(r, fe)
